@@ -17,6 +17,8 @@ anyvec_pbt::configs! {
     Tr160_Multi:  Tr160,  Multi, dyn Cloneable, G_LAYOUT | G_CORE | G_FAULT;
     Pl24_Multi:   Pl24,   Multi, dyn Cloneable, G_LAYOUT;
     Tr1_Heap:     Tr1,    Heap,   dyn Cloneable, G_RAW;
+    Pl0_Heap:     Pl0,    Heap,   dyn Cloneable, G_RAW;
+    Tr12_Heap:    Tr12,   Heap,   dyn Cloneable, G_RAW;
     Pl3_Empty:    Pl3,    any_vec::mem::Empty, dyn Cloneable + Send + Sync, G_RAW;
     Pl3_Stack:    Pl3,    Stack<17>,      dyn Cloneable, G_BACKEND | G_STACK;
     Tr0_StackN:   Tr0,    StackN<4, 0>,   dyn Cloneable, G_BACKEND | G_STACK;
